@@ -154,6 +154,7 @@ type run struct {
 	nhdr map[string]int // frames whose header was written, per direction
 	hmu  sync.Mutex
 	trig func(dir string, n int)
+	cur  sync.Mutex // guards log / muxA / muxB against hook events of an earlier scenario's multiplexers
 }
 
 func (r *run) rnd(n int) int {
@@ -206,20 +207,32 @@ func (r *run) hook(point string, args ...interface{}) {
 	if !strings.HasPrefix(point, "mux.") {
 		return
 	}
+	// which end - and which scenario's log - the event belongs to is decided in one step: a reader of the
+	// previous scenario's multiplexer that reports late must not write into this scenario's log
+	r.cur.Lock()
 	end := r.endOf(args[0])
+	lg, scn := r.log, r.scn
+	r.cur.Unlock()
 	if end == "" {
 		return
+	}
+	ev := func(name string, kv ...any) {
+		e := rec.Event{"ev": name, "scn": scn}
+		for i := 0; i+1 < len(kv); i += 2 {
+			e[kv[i].(string)] = kv[i+1]
+		}
+		lg.Add(e)
 	}
 	wdir := map[string]string{"A": "AB", "B": "BA"}[end] // direction written at this end
 	rdir := map[string]string{"A": "BA", "B": "AB"}[end] // direction read at this end
 	switch point {
 	case "mux.wlocked":
-		r.ev("wlocked", "dir", wdir, "conn", int(args[1].(uint32)), "total", args[2].(int))
+		ev("wlocked", "dir", wdir, "conn", int(args[1].(uint32)), "total", args[2].(int))
 	case "mux.whdr":
 		data := args[2].([]byte)
 		f, _ := decode(data)
 		fw, fm, fc, fn := frameID(data)
-		r.ev("whdr", "dir", wdir, "conn", int(args[1].(uint32)), "f", f, "size", len(data), "fw", fw, "fm", fm, "fc", fc, "fn", fn)
+		ev("whdr", "dir", wdir, "conn", int(args[1].(uint32)), "f", f, "size", len(data), "fw", fw, "fm", fm, "fc", fc, "fn", fn)
 		r.hmu.Lock()
 		r.nhdr[wdir]++
 		n := r.nhdr[wdir]
@@ -229,21 +242,21 @@ func (r *run) hook(point string, args ...interface{}) {
 		}
 		r.perturb()
 	case "mux.wpay":
-		r.ev("wpay", "dir", wdir, "conn", int(args[1].(uint32)), "size", args[2].(int), "ok", args[3] == nil || args[3].(error) == nil)
+		ev("wpay", "dir", wdir, "conn", int(args[1].(uint32)), "size", args[2].(int), "ok", args[3] == nil || args[3].(error) == nil)
 	case "mux.wunlocking":
-		r.ev("wunlocking", "dir", wdir, "conn", int(args[1].(uint32)))
+		ev("wunlocking", "dir", wdir, "conn", int(args[1].(uint32)))
 	case "mux.rframe":
 		buf := args[2].([]byte)
 		f, _ := decode(buf)
-		r.ev("rframe", "dir", rdir, "conn", int(args[1].(uint32)), "f", f, "size", len(buf), "open", args[3].(bool))
+		ev("rframe", "dir", rdir, "conn", int(args[1].(uint32)), "f", f, "size", len(buf), "open", args[3].(bool))
 		r.perturb()
 	case "mux.rovf":
-		r.ev("rovf", "dir", rdir, "conn", int(args[1].(uint32)))
+		ev("rovf", "dir", rdir, "conn", int(args[1].(uint32)))
 	case "mux.rerr":
 		e, _ := args[2].(error)
-		r.ev("rerr", "dir", rdir, "phase", args[1].(string), "class", errClass(e))
+		ev("rerr", "dir", rdir, "phase", args[1].(string), "class", errClass(e))
 	case "mux.close":
-		r.ev("close", "end", end)
+		ev("close", "end", end)
 	}
 }
 
@@ -284,9 +297,11 @@ func timed(d time.Duration, f func()) (bool, int) {
 const watchdog = 3 * time.Second
 
 func (r *run) exec(sc Scenario, w *rec.Writer) error {
+	r.cur.Lock()
 	r.log = &rec.Buf{}
 	r.nhdr = map[string]int{}
 	r.muxA, r.muxB, r.trig = nil, nil, nil // late hook events of the previous run's multiplexers are not ours
+	r.cur.Unlock()
 	if sc.Fault == "closeA" || sc.Fault == "closeB" {
 		// the close must fall inside the run: not later than the last frame
 		total := 0
@@ -362,8 +377,11 @@ func (r *run) exec(sc Scenario, w *rec.Writer) error {
 	}
 	vhook.Set(r.hook)
 	defer vhook.Set(nil)
-	r.muxA = multiplex.Multiplex(cutA, multiplex.WithReadQueueLength(sc.QLen), multiplex.WithBlockedRead())
-	r.muxB = multiplex.Multiplex(cutB, multiplex.WithReadQueueLength(sc.QLen), multiplex.WithBlockedRead())
+	ma := multiplex.Multiplex(cutA, multiplex.WithReadQueueLength(sc.QLen), multiplex.WithBlockedRead())
+	mb := multiplex.Multiplex(cutB, multiplex.WithReadQueueLength(sc.QLen), multiplex.WithBlockedRead())
+	r.cur.Lock()
+	r.muxA, r.muxB = ma, mb
+	r.cur.Unlock()
 	conns := map[string]net.Conn{}
 	for _, id := range sc.Conns {
 		a, err := r.muxA.Open(multiplex.ConnID(id))
